@@ -128,10 +128,10 @@ theorem delAll_equiv (h : H) {xs₁ xs₂ : List Col} (hp : xs₁.Perm xs₂) : 
       intro l; induction l <;> simp_all [List.replicate_succ]
     rw [this, this, hp.length_eq]
 
-/-- effect shapes of the coalesce loop of `_natural_join_step`: one `.loc[…] =` on the current frame, one `drop` -/
+/-- effect shapes of the coalesce loop of `_natural_join_step`: one `res[c] =` (existing column) on the current frame, one `drop` -/
 def coalShape : Reg → Nat → Nat → List (Option (WKind × Reg))
   | _, _, 0 => []
-  | r, n, k + 1 => some (WKind.locset, r) :: none :: coalShape (.loc n) (n + 1) k
+  | r, n, k + 1 => some (WKind.setcol, r) :: none :: coalShape (.loc n) (n + 1) k
 
 def sfx : String := "_tmp_right_col"
 
@@ -150,7 +150,7 @@ theorem coalesce_run (xs : List Col) (res : H) (n : Nat) :
     simp only [foldH, bind_eq, B.bind]
     have h0 : (coalesceOne res x n) =
         (⟨.loc n, ⟨res.f.cols.filter (· != x ++ sfx), res.f.nrows, 0⟩⟩, n + 1,
-          [.write .locset res.reg x (applyW .locset x res.f),
+          [.write .setcol res.reg x (applyW .setcol x res.f),
            .alloc "res.drop(c + \"_tmp_right_col\", axis=1, inplace=False)"
              ⟨res.f.cols.filter (· != x ++ sfx), res.f.nrows, 0⟩]) := by
       simp [coalesceOne, bind_eq, B.bind, write, alloc, applyW, sfx]
